@@ -27,7 +27,10 @@ Print Assumptions C08_varint_length.
     every parser configuration that knows its type: the value comes back (ACK: first 64 ranges,
     delay rescaled by the receiver's exponent; ACK_FREQUENCY: whole microseconds), the consumed
     count is exactly the encoded length, and the bytes that follow are untouched.  STREAM and
-    DATAGRAM frames without a length field must be last. *)
+    DATAGRAM frames without a length field must be last.
+    ASSUMPTION inside wf_frame: STREAM data is at most MaxPacketBufferSize = 1452 bytes (pooled buffers).
+    Above it the code does NOT round-trip: Append of 1453 bytes succeeds and ParseStreamFrame answers EOF,
+    MaybeSplitOffFrame panics (slice bounds) — unreachable from the in-tree callers, which fill pooled buffers. *)
 Theorem C08_frame_roundtrip : forall c lvl f enc rest,
   wf_frame f -> append_frame f = Some enc ->
   type_valid c (frame_type f) = true -> type_allowed lvl (frame_type f) = true ->
@@ -223,7 +226,9 @@ Proof. exact reject_unknown_type. Qed.
 Print Assumptions C08_reject_unknown_type.
 
 (** The per-level allow-list (generated from isAllowedAtEncLevel) is exactly table 3 of RFC 9000
-    (section 12.4), except that CONNECTION_CLOSE 0x1c is refused in 0-RTT (stricter than the table);
+    (section 12.4), except that CONNECTION_CLOSE 0x1c is refused in 0-RTT (stricter than the table) and that the reference
+    predicate [rfc9000_allowed] — hand-written from table 3 — also refuses RETIRE_CONNECTION_ID (0x19) in 0-RTT,
+    which follows the prose of section 12.5, not the table (two deliberate stricter entries, not one);
     Initial/Handshake allow exactly PING, ACK, CRYPTO and CONNECTION_CLOSE(0x1c). *)
 Theorem C08_allow_list_rfc_table3 :
   forallb (fun lvl => forallb (fun t =>
@@ -244,7 +249,9 @@ Example C08_handshake_done_0rtt_rejected : forall c body,
 Proof. exact handshake_done_0rtt_rejected. Qed.
 Print Assumptions C08_handshake_done_0rtt_rejected.
 
-(** Claim (a) on the model: a successful parse returns a genuine suffix of its input, reports
+(** Claim (a) on the model (NOTE: in [parse_next] the count is computed as |b| - |rest|, so its second
+    conjunct is by construction; the content is the suffix property and 0 < n.  The reported counts of the
+    Go parsers are the subject of C08_frame_reported_* below): a successful parse returns a genuine suffix of its input, reports
     exactly the number of bytes in front of it, consumes at least one byte and never more than
     the input has. *)
 Theorem C08_frame_consumed : forall c lvl b f n rest,
@@ -352,6 +359,33 @@ Example C08_any_width_example :
   parse_next (Cfg false false false 3) 4 ([17; 4] ++ [192; 0; 0; 0; 0; 0; 0; 28] ++ [1]) = Ok (FMaxStreamData 4 28, 10, [1]).
 Proof. exact any_width_example. Qed.
 Print Assumptions C08_any_width_example.
+
+(** Audit item 5: the count is not "input minus rest" by definition.  [parse_next_rep] (Wire/FramesLen.v,
+    the function the correspondence replays) advances by the counts the Go functions REPORT — ParseType's
+    `parsed`, and per frame parser the varint's own length, sums of such lengths, `+ int(dataLen)`, `+ 16`,
+    the constant 8, 0 — and these theorems show that the reported counts are exactly the bytes consumed.
+    A parser reporting the length of the shortest encoding (seeded change C08-g) contradicts
+    [reported_body_exact]. *)
+From V Require Import Wire.FramesLen Wire.FramesLenProofs.
+
+Theorem C08_frame_reported_body_exact : forall c lvl t b f rest, bytes b ->
+  parse_body c lvl t b = Ok (f, rest) -> reported_body t b = zlen b - zlen rest.
+Proof. exact reported_body_exact. Qed.
+Print Assumptions C08_frame_reported_body_exact.
+
+Theorem C08_frame_reported_type_exact : forall fuel c lvl b p t n r,
+  parse_type fuel c lvl b p = Ok (t, n, r) -> n = p + (zlen b - zlen r).
+Proof. exact parse_type_reported. Qed.
+Print Assumptions C08_frame_reported_type_exact.
+
+Theorem C08_frame_loop_by_reported_counts : forall c lvl b, bytes b -> parse_next_rep c lvl b = parse_next c lvl b.
+Proof. exact parse_next_rep_eq. Qed.
+Print Assumptions C08_frame_loop_by_reported_counts.
+
+Theorem C08_frame_reported_count_exact : forall c lvl b f n rest, bytes b ->
+  parse_next_rep c lvl b = Ok (f, n, rest) -> suffix_of rest b /\ n = zlen b - zlen rest /\ 0 < n <= zlen b.
+Proof. exact reported_count_exact. Qed.
+Print Assumptions C08_frame_reported_count_exact.
 
 (* ==== end frames ==== *)
 (* ==== tparams ==== *)
@@ -512,13 +546,19 @@ Print Assumptions C08_tparams_reject_example.
 (** Claim (c) for transport parameters (possible since the repairs of max_idle_timeout / min_ack_delay):
     everything Unmarshal accepts from a byte string is a well-formed value; Marshal's encoding of it
     (whatever the 18 random bytes of the greased parameter) is accepted again and yields the same
-    value — parse -> Marshal -> parse is a fixpoint — except that a saturated max_idle_timeout
-    (2^63-1 ns) comes back cut to whole milliseconds. *)
+    value — parse -> Marshal -> parse is a fixpoint — except that (i) a saturated max_idle_timeout
+    (2^63-1 ns) comes back cut to whole milliseconds and (ii) AdvertisedMaxIdleTimeout (what the peer
+    sent, receive side only: MaxIdleTimeout = max(5 s, advertised), 0 = none) is not what Marshal writes:
+    Marshal sends MaxIdleTimeout, so an advertised value below 5 s comes back as 5 s (tp_norm).
+    parsed_wf also states the relation between the two fields for everything Unmarshal accepts. *)
 From V Require Import Wire.TParamsReencode.
 
 Theorem C08_tparams_parsed_wf : forall pers b p,
   bytes b -> unmarshal pers false b = Ok p ->
-  tp_wf p /\ (tp_mit p <> maxInt64 -> tp_norm pers p = p).
+  tp_wf p /\
+  ((tp_amit p = 0 /\ tp_mit p = 0) \/
+   (0 < tp_amit p <= maxInt64 /\ tp_mit p = Z.max TP_MinRemoteIdleTimeout (tp_amit p))) /\
+  (tp_mit p <> maxInt64 -> tp_amit p = 0 \/ TP_MinRemoteIdleTimeout <= tp_amit p -> tp_norm pers p = p).
 Proof. exact unmarshal_wf. Qed.
 Print Assumptions C08_tparams_parsed_wf.
 
@@ -526,7 +566,8 @@ Theorem C08_tparams_reencode : forall pers rnd b p,
   bytes b -> length rnd = 18%nat -> Forall is_byte rnd ->
   unmarshal pers false b = Ok p ->
   unmarshal pers false (marshal pers rnd p) = Ok (tp_norm pers p) /\
-  (tp_mit p <> maxInt64 -> unmarshal pers false (marshal pers rnd p) = Ok p).
+  (tp_mit p <> maxInt64 -> tp_amit p = 0 \/ TP_MinRemoteIdleTimeout <= tp_amit p ->
+   unmarshal pers false (marshal pers rnd p) = Ok p).
 Proof. exact tparams_reencode. Qed.
 Print Assumptions C08_tparams_reencode.
 
@@ -1044,3 +1085,29 @@ Qed.
 Print Assumptions C08_payload_nonvacuous.
 
 (* ==== end payload ==== *)
+
+(* ==== audit round: where "re-encoding what parsed gives the same result" does NOT hold ==== *)
+(** (i) An empty STREAM frame without FIN is accepted by the parser but Append refuses to write it
+    ("attempting to write empty frame without FIN"; by design, upstream's fuzz target says "we accept empty
+    STREAM frames, but we don't write them"): C08_frame_reencode* assume [append_frame f = Some enc].
+    (ii) The session-ticket form: UnmarshalFromSessionTicket accepts EVERY transport parameter while
+    MarshalForSessionTicket writes nine fields, so parse -> marshal -> parse is a fixpoint only on those nine
+    (tickets are sealed by the server that reads them; the harness compares the nine fields).
+    Both are observations, not repaired; (iii) no re-encode theorem exists for short headers and Retry. *)
+Example C08_reencode_empty_stream_refuted :
+  parse_next (Cfg false false false 3) 4 [8; 0] = Ok (FStream 0 0 [] false false, 2, []) /\
+  append_frame (FStream 0 0 [] false false) = None.
+Proof. split; vm_compute; reflexivity. Qed.
+Print Assumptions C08_reencode_empty_stream_refuted.
+
+Example C08_ticket_reencode_refuted :
+  match ticket_unmarshal (ticket_marshal ex_tp ++ [1; 1; 7] ++ [10; 1; 5]) with
+  | Ok p1 =>
+    match ticket_unmarshal (ticket_marshal p1) with
+    | Ok p2 => tp_eqb p1 p2 = false /\ tp_ade p1 = 5 /\ tp_ade p2 = 3
+    | Err _ _ => False
+    end
+  | Err _ _ => False
+  end.
+Proof. vm_compute. repeat split. Qed.
+Print Assumptions C08_ticket_reencode_refuted.
